@@ -136,10 +136,12 @@ static int on_sigpipe_readable(Tickit *t, TickitEventFlags flags, void *info, vo
     sigprocmask(SIG_SETMASK, &orig, NULL);
   }
 
-  TickitWatch *this;
-  for(this = t->signals; this; this = this->next) {
-    if(sigismember(&pending, this->signal.signum))
-      (*this->fn)(this->t, TICKIT_EV_FIRE, NULL, this->user);
+  /* A callback may cancel any signal watch, its own included: do not walk
+   * t->signals here, let tickit_evloop_invoke_sigwatches() walk a snapshot
+   */
+  for(int signum = 1; signum < NSIG; signum++) {
+    if(sigismember(&pending, signum))
+      tickit_evloop_invoke_sigwatches(t, signum);
   }
 
   return 0;
